@@ -28,5 +28,53 @@ def main() -> int:
         bad += seams.selftest()
     except ImportError:
         pass
+    bad += _explorers()
     print("selftest", "FAILED" if bad else "ok")
     return 1 if bad else 0
+
+
+def _explorers() -> int:
+    """the explorers enumerate exactly the spaces they claim (toy systems with known sizes)"""
+    import torch
+
+    from mc import explore, seams
+
+    bad = 0
+    # deviation-bounded DFS: 3 binary choice points, non-default answers cost 1 -> #paths with <= b deviations = sum_k C(3,k)
+    for b, want in ((0, 1), (1, 4), (2, 7), (3, 8)):
+        seen = set()
+        for choices, out in explore.explore_answers(lambda ch: tuple(ch.choose(2) for _ in range(3)), b):
+            seen.add(out)
+        if len(seen) != want or any(sum(o) > b for o in seen):
+            print(f"selftest: explore_answers bound {b}: {len(seen)} paths, expected {want}", file=sys.stderr)
+            bad += 1
+    # exact distribution of a 2-site sequential sampler with known conditional weights
+    w0 = torch.tensor([[0.25, 0.75]])
+    w1 = {0: torch.tensor([[1.0, 0.0]]), 1: torch.tensor([[0.5, 0.5]])}
+
+    def sample():
+        from collections import Counter
+
+        a = int(torch.multinomial(w0, 1)[0, 0])
+        b = int(torch.multinomial(w1[a], 1)[0, 0])
+        return Counter([f"{a}{b}"])
+
+    dist, paths = explore.exact_bitstring_distribution(sample)
+    want = {"00": 0.25, "10": 0.375, "11": 0.375}
+    if paths != 3 or set(dist) != set(want) or any(abs(dist[k] - v) > 1e-12 for k, v in want.items()):
+        print(f"selftest: exact_bitstring_distribution gave {dist} in {paths} paths", file=sys.stderr)
+        bad += 1
+    # replaying a prefix that the driver does not consume as recorded must be a hard error
+    try:
+        state = {"n": 0}
+
+        def flaky(ch):
+            state["n"] += 1
+            return ch.choose(2 if state["n"] == 1 else 1)
+
+        list(explore.explore_answers(flaky, 1))
+        bad += 1
+        print("selftest: replay divergence not detected", file=sys.stderr)
+    except RuntimeError:
+        pass
+    return bad
